@@ -191,7 +191,11 @@ class Gen:
                 touched = set()
                 for _ in range(1 + rng.below(3)):
                     s = rng.choice(slots)
-                    what = self.mutate_view(views[s], st)
+                    what = "none"
+                    for _try in range(6):
+                        what = self.mutate_view(views[s], st)
+                        if what != "none":
+                            break
                     self.note("op:" + what)
                     touched.add(s)
                 for s in touched:
@@ -358,7 +362,7 @@ def main(argv):
     c.grep_gate()
 
     # ---- cases
-    n_cases = 400 if c.tier == "quick" else 6000
+    n_cases = 500 if c.tier == "quick" else 8000
     gen = Gen(c.rng)
     cases = []
     if c.replay:
@@ -368,8 +372,13 @@ def main(argv):
         for i in range(n_cases):
             cases.append(finalize_case(gen.case(malformed=(i % 8 == 7))))
 
+    import time
+    timings = {}
+    t0 = time.time()
     # ---- theorems
     proved = c.prove("C17")
+    timings["prove_s"] = round(time.time() - t0, 1)
+    t0 = time.time()
 
     # ---- real code
     binary, blog = c.go_build("c17")
@@ -391,11 +400,14 @@ def main(argv):
             c.fail_obligation("harness-run", "harness produced no results: %s" % (err + err2)[-800:])
             c.finish()
 
+    timings["harness_s"] = round(time.time() - t0, 1)
+    t0 = time.time()
     # ---- model + monitors inside coqc
     corr_bad, snd_bad, cmp_bad, model_bad, wf_count = [], [], [], [], 0
-    shard_size = 250
+    shard_size = 100
     eval_ok = True
-    for si in range(0, len(cases), shard_size):
+
+    def eval_shard(si):
         terms = []
         for ci in range(si, min(si + shard_size, len(cases))):
             us, r = cases[ci], results[ci]
@@ -409,7 +421,12 @@ Definition model_bad := Eval vm_compute in map fst (filter is_model_bad cases).
 Definition wf_count := Eval vm_compute in N.of_nat (length (filter wf_case cases)).
 Print corr_bad. Print snd_bad. Print cmp_bad. Print model_bad. Print wf_count.
 """
-        ok, cout = c.coq_eval("c17_cases_%d" % (si // shard_size), body)
+        return c.coq_eval("c17_cases_%d" % (si // shard_size), body)
+
+    from concurrent.futures import ThreadPoolExecutor
+    with ThreadPoolExecutor(max_workers=8) as ex:
+        shard_results = list(ex.map(eval_shard, range(0, len(cases), shard_size)))
+    for ok, cout in shard_results:
         if not ok:
             c.fail_obligation("cases-eval", cout[-1500:])
             eval_ok = False
@@ -424,6 +441,7 @@ Print corr_bad. Print snd_bad. Print cmp_bad. Print model_bad. Print wf_count.
         model_bad += grab("model_bad")
         wf_count += (grab("wf_count") or [0])[0]
 
+    timings["coq_eval_s"] = round(time.time() - t0, 1)
     # ---- verdict
     reported = set()
     for ci in sorted(set(snd_bad) | set(cmp_bad)):
@@ -473,6 +491,7 @@ Print corr_bad. Print snd_bad. Print cmp_bad. Print model_bad. Print wf_count.
         "well_formed_cases": wf_count,
         "status_histogram": status_hist,
         "input_distribution": dict(sorted(gen.stats.items())),
+        "timings": timings,
         "correspondence_disagreements": len(corr_bad),
         "monitor_failures_on_impl": len(set(snd_bad) | set(cmp_bad)),
     })
